@@ -1,4 +1,4 @@
-(** Obligations of C20 over gen/FsGen.v (those of C19 are in FsGenSpec19.v): what the models in coq/Fsx transcribe from the
+(** Obligations of C20 over gen/FsGen19.v and gen/FsGen20.v (those of C19 are in FsGenSpec19.v): what the models in coq/Fsx transcribe from the
     source, compared SEMANTICALLY where go2coq can extract it (comparisons
     normalised to (smaller, op, larger) with widening conversions and
     parentheses removed; additive constants, shift amounts and mask widths as
@@ -9,7 +9,7 @@
     one of these breaks C19_source_shape / C20_source_shape and sends the check
     into its search for a concrete failing input. *)
 From Coq Require Import String List Bool NArith.
-From P9V Require Import gen.ConstGen gen.FsGen Fsx.Qid.
+From P9V Require Import gen.ConstGen gen.FsGen20 Fsx.Qid.
 Import ListNotations.
 Open Scope string_scope.
 
